@@ -41,7 +41,20 @@ SYMBOL_TABLES = symbol_table.SYMBOL_TABLES
 
 
 def create(std="f2003"):
-    return ParserFactory().create(std=std)
+    """The parser for std.  The step budget of M-NEW is a bound per input: the counter restarts with every parse, so
+    that a case that parses many variants (layouts, shrinking) is not cut off by their sum."""
+    cls = ParserFactory().create(std=std)
+
+    def run(reader):
+        from . import monitors
+
+        nm = monitors.NewMonitor.installed
+        if nm is not None:
+            nm.reset()
+        return cls(reader)
+
+    run.parser_class = cls
+    return run
 
 
 def parse(text, std="f2003", **reader_opts):
